@@ -16,7 +16,7 @@
 From Coq Require Import List Arith Bool String ZArith Lia.
 From PV Require Import Base.Exn Base.Values Base.Ann Base.PyCall Model.CheckerCfg Model.Checker Model.PedanticCfg
   Model.Pedantic Model.GenWrapper Model.PedanticEval Spec.Conforms Spec.PedanticSpec
-  Proofs.PedanticBase Proofs.PyCallFacts Proofs.PedanticC03 Proofs.PedanticC04 Proofs.PedanticChecker Proofs.PedanticWitness Gen.Pedantic Gen.CheckerTables.
+  Proofs.PedanticBase Proofs.PyCallFacts Proofs.PedanticC03 Proofs.PedanticC04 Proofs.PedanticGen Proofs.PedanticChecker Proofs.PedanticWitness Gen.Pedantic Gen.CheckerTables.
 Import ListNotations.
 Close Scope Z_scope.
 Open Scope list_scope.
@@ -35,6 +35,19 @@ Theorem C04_transparent_relative : forall pc check consumes f c bd b r,
   run pc check consumes f c bd = twin f c bd.
 Proof. intros. eapply transparent; eassumption. Qed.
 Print Assumptions C04_transparent_relative.
+
+(* generator functions: if everything the generator yields / returns and everything that is sent conforms (the checker
+   accepts it), the caller of the GeneratorWrapper observes exactly the sequence of results the caller of the undecorated
+   generator observes - for every generator body and every sequence of next / send / throw / close operations (induction on
+   the sequence).  Guard `accepts rt None`: an exhausted generator (finding C04-exhausted-generator). *)
+Theorem C04_generator_transparent_partial : forall check yt st rt body ops w,
+  (forall h y, body h = GYield y -> g_accepts check yt y) ->
+  (forall h r, body h = GReturn r -> g_accepts check rt r) ->
+  g_accepts check rt VNone ->
+  Forall (op_ok check st) ops ->
+  fst (w_run check yt st rt body w ops) = map res_of (fst (twin_run body (w_inner w) ops)).
+Proof. intros. now apply gen_transparent. Qed.
+Print Assumptions C04_generator_transparent_partial.
 
 Lemma consumes_model_iter : forall cfg a v, consumes_model cfg a v = true -> has_iter v = true.
 Proof. intros cfg a v H. unfold consumes_model in H. destruct a; try discriminate. destruct sp; try discriminate.
